@@ -1323,12 +1323,17 @@ func convertDateFormat(format string) string {
 		"s": "05", // Seconds with leading zeros
 	}
 
-	result := format
-	for phpFormat, goFormat := range replacements {
-		result = strings.ReplaceAll(result, phpFormat, goFormat)
+	// Translate each format letter exactly once, left to right
+	var result strings.Builder
+	for _, c := range format {
+		if goFormat, ok := replacements[string(c)]; ok {
+			result.WriteString(goFormat)
+		} else {
+			result.WriteRune(c)
+		}
 	}
 
-	return result
+	return result.String()
 }
 
 // Additional filter implementations
